@@ -93,6 +93,10 @@ SUMMARY = {
 'c08rc':'rewrite with a lazy roll (only when free space < longest pattern); roll() sets buffer_reported_pos = 0 instead of rebasing it: a replaced match inside the retained suffix is written again as plain text',
 'c17rc':'the three rare-byte prefilters merged into one routine with an atomic note of the last scan (start, first rare byte position), validated only by "that byte is still a rare byte": a note from another haystack skips an earlier rare byte',
 'c18rc':'rewrite of Buffer::fill as one read plus a top-up loop whose `_ => break` arm also catches Err: a one-shot read error after a short first read is dropped (rediscovery of c18a in a rewrite)',
+'c07rd':'prefilter skip in the stream loop that holds back min_pattern_len-1 instead of max_pattern_len-1 bytes (third independent rediscovery of c07d)',
+'c08rd':'roll sets buffer_reported_pos = 0 instead of rebasing it: a replaced match inside the retained tail is written again (same defect as c08rc, as a one-line edit)',
+'c17rd':'prefilter effectiveness counters shared through an Arc; once inert the prefilter answers PossibleStartOfMatch(span.start), which flips earliest searches of leftmost searchers with a packed prefilter from the leftmost to the earliest-ending match',
+'c18rd':'fill drops a read error when the same call already read bytes (fourth independent rediscovery of c18a)',
 'c18a':'fill returns Ok(true) instead of the error when it had already buffered bytes in the same call: one-shot read errors during the initial fill vanish',
 'c18b':'closure errors of kind Interrupted are retried by calling the closure again: error swallowed, partial output duplicated',
 'c18c':'fill commits its new end only after the loop: an error on a later read of one fill discards bytes accepted earlier; polling on shifts all later offsets',
